@@ -195,7 +195,7 @@ def run(ctx):
     mism = []       # (group, case index)
     for g in groups:
         for j, (a, b) in enumerate(zip(g.impl, g.model)):
-            if a != b:
+            if a != b and g.cases[j].api != "history":
                 mism.append((g, j))
         res = plug["oracle"](ctx, g)
         for desc in res:
@@ -205,7 +205,7 @@ def run(ctx):
     # 1. oracle failures on the implementation
     reported = 0
     for g, desc in fails:
-        gm = any(a != b for a, b in zip(g.impl, g.model))
+        gm = any(a != b for c, a, b in zip(g.cases, g.impl, g.model) if c.api != "history")
         feats = g.meta.get("features", set())
         ids = attributable(ctx.prop, feats) if not gm else []
         if ids:
@@ -1180,3 +1180,6 @@ PLUGINS = {
     "C09": {"streams": c09_streams, "oracle": c09_oracle},
     "C15": {"streams": c15_streams, "oracle": c15_oracle, "regroup": c15_regroup},
 }
+
+import props2  # noqa: E402  (streams and oracles for the remaining properties)
+PLUGINS.update(props2.PLUGINS2)
